@@ -161,7 +161,7 @@ def fmtOut6 : Out6 → String
 
 def step6 (op res : String) : List String :=
   match words op, splitSemi res with
-  | ["dg6", bound, oob, chain, src, _, _], [parsed, outW, invW] =>
+  | ["dg6", bound, oob, chain, src, srcPort, _], [parsed, outW, invW] =>
     match bound.toNat?, addr16 src, parsed with
     | some bound, some src, tag :: fields0 =>
       let orig : List Nat := (fields0.headD "-" |> parseHex).getD []
@@ -198,12 +198,13 @@ def step6 (op res : String) : List String :=
                 if C13.holdsLog hs.length inv none orig then [] else [s!"FAIL C13 chain={chain} log={invW} sent=none"]
             | none => ["DIVERGE drift unparsed-inv"]
           brs ++ (if m == .drop then [] else [s!"DIVERGE dom model={fmtOut6 m}"]) ++ f13
-        | "send" :: ifi :: peer :: _port :: tree =>
+        | "send" :: ifi :: peer :: port :: tree =>
           match (if ifi == "-" then some none else ifi.toNat?.map some), parseTree tree [], parseInv ((invW.drop 1).headD "-") with
           | some ifi, some (ls, some (mm, tags)), some inv =>
             let out : Out6 := .send ls ⟨mm.mt, mm.xid, mm.cid, mm.rapid, tags⟩ ifi
             let f12 := (if C12.holds bound oob src input out then [] else [s!"FAIL C12 {res}"]) ++
-                       (if addr16 peer == some src then [] else ["FAIL C12 reply not sent to the source address"])
+                       (if addr16 peer == some src then [] else ["FAIL C12 reply not sent to the source address"]) ++
+                       (if port == srcPort then [] else [s!"FAIL C12 reply sent to port {port}, the datagram came from port {srcPort}"])
             let f13 := if C13.holdsLog hs.length inv (some tags) orig then [] else [s!"FAIL C13 chain={chain} log={invW} sent={tags}"]
             brs ++ (if m == out then [] else [s!"DIVERGE dom model={fmtOut6 m}"]) ++ f12 ++ f13
           | _, _, _ => brs ++ ["DIVERGE dom unparsed-result"]
